@@ -219,7 +219,9 @@ def check_program(text, impl, envs, mask_addr_runtime=False):
                 v.append(("C01", "is-deletable silent although a DeleteApplication call is approved"))
             if me["Sender"][1] == FRESH and silent("unprotected-deletable"):
                 v.append(("C01", "unprotected-deletable silent although a DeleteApplication call from a fresh sender is approved"))
-        if size == 16 and any(b in abs_blocks for b in blocks) and silent("group-size-check"):
+        # known finding D21: an absolute-index read that only lies on a cycle (loop body / repeated call) is cut
+        # away by the per-activation loop cut, so only acyclic block traces are judged here
+        if size == 16 and len(set(blocks)) == len(blocks) and any(b in abs_blocks for b in blocks) and silent("group-size-check"):
             v.append(("C01", "group-size-check silent although a group of 16 reading by absolute index is approved"))
         stats["facts"] += 9
         for pid, msg in v:
